@@ -29,8 +29,11 @@ func (f *follower) release() {}
 func (f *follower) resetTimer() {
 	// a follower that cannot start elections (not bootstrapped yet, nonvoter)
 	// still restarts a running timer: otherwise the timer armed earlier expires
-	// right after a contact with the leader and makes it forget that leader
-	if yes, _ := f.canStartElection(); yes || f.timer.active {
+	// right after a contact with the leader and makes it forget that leader.
+	// it also starts the timer whenever it knows a leader: the timeout is what
+	// makes it forget a leader it no longer hears from, and until then it
+	// refuses its vote to the voters of a configuration it may not hold yet
+	if yes, _ := f.canStartElection(); yes || f.timer.active || f.leader != 0 {
 		f.electionAborted = false
 		f.timer.reset(f.rtime.duration(f.hbTimeout))
 	}
